@@ -45,3 +45,30 @@ reg(
 )
 
 NOT_DONE_REASON = "check not completed yet in this build (see DESIGN.md section 6 build order)"
+
+reg(
+    "C05",
+    "E1-bfs",
+    "model_checking",
+    "explicit-state BFS over request histories on one parsed tree, differential oracle against a fresh parse",
+    "All sequences of flatten / CasADi / SymPy / XML requests (every class, with repetition) up to length 3 (quick) / 5 "
+    "(thorough) on one parsed tree are executed on the real code for 5 hand-written libraries and every test model; "
+    "each step must equal the same request on a fresh parse. States are structural fingerprints of the whole tree, so "
+    "when no request changes the tree the search closes and the result holds for histories of any length by induction. "
+    "All ordered pairs of -m requests through tools.compiler.main are compared with the single requests.",
+    "Libraries are finite samples of the program space (the history quantifier is what is exhausted); results are "
+    "compared as pymoca's own JSON form of the flat tree / str(Model)+attributes / generated text; exception type only.",
+)
+
+reg(
+    "C06",
+    "E1-bfs",
+    "model_checking",
+    "explicit-state BFS over deepcopy/edit interleavings on up to 3 trees, differential oracle against fresh parse + own edits",
+    "All histories up to length 3 (quick) / 5 (thorough) with <= 2 / 3 edits over deepcopy of any tree and add/remove "
+    "symbol/equation/class on a component-type class, a base class and the top model, on up to 3 trees (copies of "
+    "copies included). After every event every class of every tree is flattened and must equal a fresh parse carrying "
+    "exactly that tree's own edits.",
+    "One library (component types + extends + modifications); edits through the public AST API only; the expected "
+    "result uses the same AST API on a never-copied fresh parse, so defects of add_/remove_ themselves are not seen.",
+)
